@@ -22,6 +22,8 @@ const WORDS: &[&str] = &[
 pub fn is_keyword_finding(what: &str) -> bool {
     // produced only by the re-lex clause below, in exactly this format
     WORDS.iter().any(|w| {
+        // (a keyword-like word that *is* followed by an end-of-expression and still lexes as an
+        // identifier is not this finding)
         what.ends_with(&format!("was Ident(\"{w}\")"))
             && what.contains(&format!("slice \"{w}\" re-lexes to "))
             && (what.contains("re-lexes to Keyword(") || what.contains("re-lexes to Literal(Boolean(") || what.contains("re-lexes to Literal(Null)"))
@@ -138,9 +140,18 @@ pub fn judge(src: &str) -> Result<Judged, String> {
                             ));
                         }
                         if sub[1].kind != t.kind {
+                            // is the token followed by something the lexer's keyword look-ahead
+                            // (`end_expr`: end, `,)]}`, tab, blank, `>`, newline, `..`) accepts?
+                            let rest = &src[e..];
+                            let at_end_expr = rest.is_empty()
+                                || rest.starts_with([',', ')', ']', '}', '\t', ' ', '>', '\n'])
+                                || rest.starts_with("\r\n")
+                                || rest.starts_with("..");
                             return Err(format!(
-                                "token {i} slice {slice:?} re-lexes to {:?}, was {:?}",
-                                sub[1].kind, t.kind
+                                "token {i} slice {slice:?}{} re-lexes to {:?}, was {:?}",
+                                if at_end_expr { " (followed by an end-of-expression)" } else { "" },
+                                sub[1].kind,
+                                t.kind
                             ));
                         }
                         if sub[1].span != (0..slice.len()) {
